@@ -127,7 +127,7 @@ func RunC02LongRow(ctx *core.Ctx) {
 						ctx.Fail("L1", "write-error mode="+mode+" "+errClass(err), "writing valid rows failed: "+err.Error(), detail)
 						continue
 					}
-					if !c02Judge(ctx, d, tmp, e, rows, file, mode, desc, cfg.MaxRows, 1000*(mi+1)+k, n, detail) {
+					if !c02Judge(ctx, d, tmp, e, rows, file, mode, desc, cfg.MaxRows, 1000*(mi+1)+k, n, detail, nil) {
 						return
 					}
 				}
